@@ -1,0 +1,28 @@
+//go:build verif
+
+package authip
+
+// Contracts for authip.go, read by the rcvc verifier in /verif (comment-only; adds no code).
+// The admitted set is the ghost view of the embedded lock-free map (assumed contracts in /verif/spec/trusted/hashmap.spec).
+
+//@ use yaml strs
+
+//@ define admitted(s) = IpMap.HashMap.view[box(s)]
+
+//@ func ipMap.Validate
+//@   props C18
+//@   flags pure
+//@   ensures[validate] result == (!i.enable || i.HashMap.view[box(ip)])
+
+//@ func ipMap.Insert
+//@   props C18
+//@   modifies i.HashMap.view
+//@   ensures[insert] forall k Ref :: i.HashMap.view[k] == (old(i.HashMap.view[k]) || k == box(key))
+
+//@ func AuthIp.parseAuthIp
+//@   props C18
+//@   ensures[keep] result != nil ==> IpMap.enable == old(IpMap.enable) && (forall k Ref :: IpMap.HashMap.view[k] == old(IpMap.HashMap.view[k]))
+//@   ensures[enable] result == nil ==> IpMap.enable == (yaml_has_enable(curfile(a.name)) && yaml_enable(curfile(a.name)))
+//@   ensures[exact] (result == nil && IpMap.enable) ==> (forall s string :: admitted(s) == (yaml_has_list(curfile(a.name)) && yaml_listed(curfile(a.name), s)))
+//@   loop 0
+//@     invariant 0 <= rangeindex + 1 && rangeindex + 1 <= len(auth.IpList)
